@@ -62,6 +62,31 @@ its own; the g* stream is unchanged):
       demand rate (the library's documented order demand > audio > control >
       scalar, rate numbers 3 > 2 > 1 > 0 in the definition), so (iv) is the
       same maximum over the decoded input wires.
+
+Round 10 - operator units that are NOT functions of their inputs (shards r*,
+gen_program(stateful=True), a third case stream; g* and x* are unchanged).
+The ring evaluation treated every operator unit other than + - * / neg as an
+uninterpreted FUNCTION of opcode and input values, so a definition in which two
+units with a random-generator opcode over the same operand were one unit
+evaluated to the same values as the source.  The class now reached: the unary
+opcodes rand, rand2, linrand, bilinrand, sum3rand, coin and the binary opcodes
+rrand, exprand (vf.opcodes.STATEFUL_*) applied two or three times to the same
+operand object, to the same pair of objects, to `x, x` and to equal constants
+(also 440 / 440.0), the copies read directly by one Out, through `c + dev`
+into one tagged oscillator per voice, through a second random operator each,
+combined with each other by one operator (r0 - r1), one of them unreferenced,
+next to a stateless operator applied twice to the same operand (which MAY be
+one unit).  Monitor (vi), compare_stateful(), on every program of any stream
+that has such an opcode on either side, after (i)-(v) passed: the same
+comparison under an interpretation in which these units are STATEFUL LEAVES,
+one identity per creation ("each ... stateful unit generator appears exactly
+once" = one unit per unit the function created).  The n creations over the
+same operand values are interchangeable, so the definition is accepted iff
+some injection of its units with that opcode and those input values into the
+creations makes all monitors pass (depth-first search in unit order, at most
+STATEFUL_SEARCH_CAP runs, capped searches are counted and not judged); a
+creation without a unit must be dead by the rule of stateful units.  Keys
+C01/stateful-operator-units-merged|-unit-duplicated|-unit-extra|-unit-wiring.
 """
 
 import json
@@ -96,7 +121,10 @@ RULE = ("seeded random graph functions as data (vf/gen_graph.py, profile c01): "
         "70 % of them as statements whose output nothing reads, and demand-"
         "rate expressions (19 demand-rate classes under unary / binary "
         "operators with numbers, ir / kr / ar signals and each other) pulled "
-        "by Demand / Duty / TDuty / DemandEnvGen.  A program is non-trivial when at "
+        "by Demand / Duty / TDuty / DemandEnvGen.  Shards r*: the c01 profile plus "
+        "2-3 applications of one random-generator operator (6 unary, 2 binary "
+        "opcodes) to the same operand object(s) / equal constants in 7 "
+        "consumer shapes, at least one group per program.  A program is non-trivial when at "
         "least one optimiser rewrite, constructor shortcut or dead-code removal "
         "fired while it was compiled; distinct = hash of the program data")
 ASSUMPTIONS = [
@@ -119,6 +147,14 @@ ASSUMPTIONS = [
     "demand rate is rate number 3 in a definition and the highest rate "
     "(library comment and server documentation); fused MulAdd / Sum3 / Sum4 "
     "on demand-rate operands are outside the generated domain",
+    "operator opcodes that are not functions of their inputs "
+    "(vf/opcodes.py:STATEFUL_UNARY / STATEFUL_BINARY): unary rand, rand2, "
+    "linrand, bilinrand, sum3rand, coin and binary rrand, exprand draw from the "
+    "synth's random generator in the server's UnaryOpUGens.cpp / "
+    "BinaryOpUGens.cpp (the 'random operators' of the operator documentation); "
+    "every other opcode is a stateless function, so equal applications of it "
+    "may share a unit.  Such a unit has no effect beyond its output: an "
+    "unreferenced one may be dropped (rule of stateful units)",
 ]
 MIN_COUNTERS = {
     'programs_compiled': 300, 'wires_compared': 3000,
@@ -155,12 +191,25 @@ MIN_COUNTERS = {
     'arith_units_demand_and_control_input': 200,
     'arith_units_demand_and_audio_input': 200,
     'unary_units_with_demand_input': 100,
+    # round 10 (r shards)
+    'feature_stateful-operator-repeated': 150,
+    'feature_stateful-operator-unary': 80,
+    'feature_stateful-operator-binary': 60,
+    'feature_stateful-operator-shape-direct': 20,
+    'feature_stateful-operator-shape-voices': 40,
+    'feature_stateful-operator-shape-nested': 20,
+    'feature_stateful-operator-shape-combine': 20,
+    'feature_stateful-operator-shape-dead-one': 20,
+    'feature_stateful-operator-shape-pure-twin': 20,
+    'stateful_operator_programs_checked': 200,
+    'stateful_operator_units_matched': 600,
+    'stateful_operator_groups_of_two_or_more': 200,
 }
 
 
 def plan(tier, seed):
     total = 90000 if tier == 'quick' else 1_200_000
-    parts = 12      # + 4 x shards = 16 workers
+    parts = 10      # + 4 x shards + 2 r shards = 16 workers (one batch)
     secs = 40 if tier == 'quick' else 600
     shards = [{'name': f'g{p}', 'mode': 'nrt', 'kind': 'g', 'first_case': f,
                'n': n, 'secs': secs, 'hard_timeout': secs + 150}
@@ -170,6 +219,11 @@ def plan(tier, seed):
     shards += [{'name': f'x{p}', 'mode': 'nrt', 'kind': 'x', 'first_case': f,
                 'n': n, 'secs': secs, 'hard_timeout': secs + 150}
                for p, (f, n) in enumerate(split(xtotal, 4))]
+    # round 10: repeated operator units with a random-generator opcode
+    rtotal = 12000 if tier == 'quick' else 160_000
+    shards += [{'name': f'r{p}', 'mode': 'nrt', 'kind': 'r', 'first_case': f,
+                'n': n, 'secs': secs, 'hard_timeout': secs + 150}
+               for p, (f, n) in enumerate(split(rtotal, 2))]
     return shards
 
 
@@ -184,9 +238,19 @@ class Problem(Exception):
 
 
 class DecodedEval:
-    def __init__(self, d, rho, gg, oc):
+    def __init__(self, d, rho, gg, oc, src_counts=None, choices=()):
         self.d = d
         self.rho = rho
+        # leaf semantics of random-generator opcodes (rho.stateful_ops): a
+        # unit with such an opcode takes the identity of one of the source
+        # creations with the same opcode and input values that no other unit
+        # has taken; which one is the next entry of `choices` (0 beyond it),
+        # `branching` records how many were free at each such unit
+        src_counts = src_counts or {}
+        used = set()
+        self.branching = []
+        self.unmatched = []       # stateful operator units no creation is left for
+        self.stateful_matched = 0
         self.vals = []            # per unit: list of output values
         self.units = []           # opaque units {'u','cls','sig','eff','ins'}
         self.ops = []             # opaque operator units {'u','cls','special','ins','val'}
@@ -276,6 +340,24 @@ class DecodedEval:
                         v = r.add(v, x)
                 if v is not None:
                     self.arith.append({'u': u, 'desc': desc, 'ins': ins, 'val': v})
+                elif r.stateful_ops and oc.is_stateful_op(cls, u.special):
+                    key = (cls, u.special, tuple(ins))
+                    free = [k for k in range(src_counts.get(key, 0))
+                            if (key, k) not in used]
+                    if free:
+                        pos = len(self.branching)
+                        pick = choices[pos] if pos < len(choices) else 0
+                        self.branching.append(len(free))
+                        k = free[min(pick, len(free) - 1)]
+                        used.add((key, k))
+                        v = r.stateful_op(cls, u.special, ins, k)
+                        self.stateful_matched += 1
+                    else:
+                        v = r.h('stateful-op-unmatched', u.index)
+                        self.unmatched.append((u, desc))
+                    self.ops.append({'u': u, 'cls': cls, 'special': u.special,
+                                     'ins': ins, 'val': v, 'desc': desc,
+                                     'stateful': True})
                 else:
                     v = r.op(cls, u.special, ins)
                     self.ops.append({'u': u, 'cls': cls, 'special': u.special,
@@ -305,7 +387,7 @@ def _flat(vals):
             yield v
 
 
-def compare(prog, d, rho, gg, oc, stats):
+def compare(prog, d, rho, gg, oc, stats, choices=(), trace=None):
     """Problems (key, detail) of definition d w.r.t. program prog under rho."""
     src = gg.SourceEval(prog, rho)
     n_eff = sum(1 for u in src.units if u['eff'] == 'effect')
@@ -322,9 +404,17 @@ def compare(prog, d, rho, gg, oc, stats):
         return [('C01/non-finite-constant',
                  f'constants {d.constants}; infinities of the source: '
                  f'{sorted(src_inf)}')]
-    dec = DecodedEval(d, rho, gg, oc)
+    dec = DecodedEval(d, rho, gg, oc, src.stateful_count, choices)
+    if trace is not None:
+        trace['branching'] = dec.branching
+        trace['matched'] = dec.stateful_matched
     if dec.structural:
         return dec.structural[:1]
+    if dec.unmatched:
+        u, desc = dec.unmatched[0]
+        return [(f'C01/stateful-operator-unit-extra/{desc}',
+                 f'unit {u!r}: every creation of this operator over these '
+                 f'operand values already has its unit')]
     live = src.live_nodes()
     problems = []
 
@@ -510,6 +600,91 @@ def compare(prog, d, rho, gg, oc, stats):
     o = missing_ops[0]
     return [(f'C01/operator-missing/{o["cls"]}({o["name"]})',
              f'live node v{o["node"]} has no unit with its opcode and operands')]
+
+
+STATEFUL_SEARCH_CAP = 150
+
+
+def has_stateful_ops(prog, d, oc):
+    for nd in prog['nodes']:
+        if (nd['k'] == 'un' and nd['op'] in oc.STATEFUL_UNARY) or \
+                (nd['k'] == 'bin' and nd['op'] in oc.STATEFUL_BINARY):
+            return True
+    return any(oc.is_stateful_op(u.cls, u.special) for u in d.units)
+
+
+def compare_stateful(prog, d, key, gg, oc, stats):
+    """Second interpretation of the same program (run after the functional
+    one passed): operator units with a random-generator opcode are STATEFUL
+    LEAVES, one per creation.  The source gives the n creations of one
+    operator over the same operand values the identities 0..n-1; they are
+    interchangeable, so the definition is right iff SOME injection of its
+    units with that opcode and those operand values into the creations makes
+    every other monitor of compare() pass (absent creations must be dead).
+    Depth-first search over the injections in unit order; a correct
+    compilation is found by the first run when the sort keeps creation order."""
+    rho = gg.Rho(key, gg.PRIMES[0], stateful_ops=True)
+    choices, runs, first = [], 0, None
+    while True:
+        tr, st = {}, Counter()
+        probs = compare(prog, d, rho, gg, oc, st, choices, tr)
+        runs += 1
+        if not probs:
+            stats['stateful_operator_units_matched'] += tr.get('matched', 0)
+            stats['stateful_operator_programs_checked'] += 1
+            stats['max_stateful_assignment_runs'] = max(
+                stats['max_stateful_assignment_runs'], runs)
+            if runs > 1:
+                stats['stateful_assignment_not_first'] += 1
+            src = gg.SourceEval(prog, rho)
+            grp = [n for n in src.stateful_count.values() if n > 1]
+            stats['stateful_operator_groups_of_two_or_more'] += len(grp)
+            stats['stateful_operator_units_in_groups'] += sum(grp)
+            return []
+        first = first or probs
+        br = tr.get('branching', [])
+        ch = (list(choices) + [0] * len(br))[:len(br)]
+        i = len(br) - 1
+        while i >= 0 and ch[i] + 1 >= br[i]:
+            i -= 1
+        if i < 0:
+            break
+        choices = ch[:i] + [ch[i] + 1]
+        if runs >= STATEFUL_SEARCH_CAP:
+            stats['stateful_assignment_search_capped'] += 1
+            return []
+    # ---- no injection works: name the mechanism ------------------------------
+    fn = gg.Rho(key, gg.PRIMES[0])
+    src = gg.SourceEval(prog, fn)
+    dec = DecodedEval(d, fn, gg, oc)
+    live = src.live_nodes()
+    groups = {}
+    for o in src.ops:
+        if oc.is_stateful_op(o['cls'], o['special']):
+            g = groups.setdefault(o['val'], {'s': 0, 'lv': 0, 'o': o})
+            g['s'] += 1
+            g['lv'] += o['node'] in live and src.semantically_live(
+                o['node'], o.get('chan'))     # not absorbed by x*0 ...
+    d_cnt = Counter(o['val'] for o in dec.ops
+                    if oc.is_stateful_op(o['cls'], o['special']))
+    for val, g in groups.items():
+        o, c = g['o'], d_cnt.get(val, 0)
+        nm = f'{o["cls"]}({o["name"]})'
+        if c < g['lv']:
+            return [(f'C01/stateful-operator-units-merged/{nm}',
+                     f'node v{o["node"]}: the function creates {g["s"]} {nm} '
+                     f'units over the same operand(s), {g["lv"]} of them read '
+                     f'by the outputs; the definition has {c}.  {o["name"]} is '
+                     f'a random generator: each unit draws its own numbers')]
+        if c > g['s']:
+            return [(f'C01/stateful-operator-unit-duplicated/{nm}',
+                     f'node v{o["node"]}: {g["s"]} in source, {c} in definition')]
+    o = next(iter(groups.values()))['o'] if groups else None
+    nm = f'{o["cls"]}({o["name"]})' if o else 'none-in-source'
+    return [(f'C01/stateful-operator-unit-wiring/{nm}',
+             f'no assignment of the definition\'s random-operator units to the '
+             f'units the function creates makes the consumers read what the '
+             f'function wired; first attempt: {first[0][0]}: {first[0][1]}')]
 
 
 def width_first_order(d, prog, gg, stats):
@@ -700,6 +875,9 @@ def attributable_to_folding(prog, gg, oc, scgf, seed_key):
             rho = gg.Rho(f'{seed_key}-cf-{k}'.encode(), gg.PRIMES[k])
             if compare(prog, d, rho, gg, oc, Counter()):
                 return False
+        if has_stateful_ops(prog, d, oc) and compare_stateful(
+                prog, d, f'{seed_key}-cf-leaf'.encode(), gg, oc, Counter()):
+            return False
         return not width_first_order(d, prog, gg, Counter())
     except Exception:
         return False
@@ -781,12 +959,16 @@ def run_shard(spec, acc):
     stats = Counter()
     kind = spec['shard'].get('kind', 'g')
     extra = kind == 'x'
+    stateful = kind == 'r'
     if extra:
         purity_census(gg, acc)
     for i in iter_cases(spec):
         rng = case_rng(spec['seed'], 'C01', kind, i)
-        prog = gg.gen_program(rng, name=f'c01{"x" if extra else ""}_{i}',
-                              extra=extra)
+        if stateful:
+            prog = gg.gen_program(rng, name=f'c01r_{i}', stateful=True)
+        else:
+            prog = gg.gen_program(rng, name=f'c01{"x" if extra else ""}_{i}',
+                                  extra=extra)
         prog['extra'] = extra
         sig = h64(json.dumps([prog['params'], prog['nodes']], sort_keys=True))
         f0 = sum(fired.values())
@@ -858,13 +1040,19 @@ def run_shard(spec, acc):
             if probs:
                 found = (k, probs[0])
                 break
+        if not found and has_stateful_ops(prog, d, oc):
+            probs = compare_stateful(
+                prog, d, f'C01-{spec["seed"]}-{i}-leaf'.encode(), gg, oc, stats)
+            if probs:
+                found = (0, probs[0])
         if not found and wfo:
             found = (0, wfo[0])
         if found:
             k, (key, detail) = found
             if not key.startswith(('C01/arith-rate', 'C01/width-first',
                                    'C01/opcode', 'C01/infinite-constant',
-                                   'C01/non-finite')):
+                                   'C01/non-finite',
+                                   'C01/stateful-operator')):
                 key += mechanism_suffix(prog)
             manifestation = key
             if attributable_to_folding(prog, gg, oc, scgf,
